@@ -51,10 +51,17 @@ def budget(tier: str) -> int:
 
 # ---------------------------------------------------------------------------------------------- generation
 
-def _sched_line(n, sats, ops):
+def _sched_line(n, sats, ops, alias=None, tight=False):
+    """alias {j: i}: iterator j evaluates the SAME query object as iterator i (their sats coincide);
+    tight: every query carries the constraint AtMost(number of its solutions), which a correct count never violates"""
     s_sats = " ".join("(" + " ".join([str(i)] + [str(e) for e in es]) + ")" for i, es in sats.items())
     s_ops = " ".join(f"({o} {i})" for o, i in ops)
-    return f"(sched (n {n}) (sats {s_sats}) (ops {s_ops}))"
+    extra = ""
+    if alias:
+        extra += " (alias " + " ".join(f"({j} {i})" for j, i in alias.items()) + ")"
+    if tight:
+        extra += " (tight)"
+    return f"(sched (n {n}) (sats {s_sats}) (ops {s_ops}){extra})"
 
 
 def _interleavings(a, b):
@@ -102,6 +109,32 @@ def _random_sched(rng):
         else:
             ops.append(("abandon", i)); live.discard(i)
     return Case(_sched_line(n, sats, ops), ("sched", "random", f"iters{k}"), "random")
+
+
+def _warm_shared_sched(rng):
+    """one query object, fully evaluated once (so the domain is cached), then two or three evaluations of that SAME
+    object consumed in an interleaved fashion, with a tight never-violated AtMost constraint"""
+    n = rng.randrange(1, 5)
+    sat = sorted(rng.sample(range(n), rng.randrange(1, n + 1)))
+    k = rng.choice([2, 2, 3])
+    sats = {0: sat}
+    alias = {}
+    for j in range(1, k + 1):
+        sats[j] = sat
+        alias[j] = 0
+    ops = [("start", 0)] + [("next", 0)] * (len(sat) + 1)
+    pend = {j: len(sat) + 1 for j in range(1, k + 1)}
+    started = set()
+    while pend:
+        j = rng.choice(sorted(pend))
+        if j not in started:
+            ops.append(("start", j)); started.add(j)
+            continue
+        ops.append(("next", j))
+        pend[j] -= 1
+        if pend[j] <= 0:
+            del pend[j]
+    return Case(_sched_line(n, sats, ops, alias, tight=True), ("sched", "warm-shared", f"iters{k}"), "random")
 
 
 def _sequential_sched(rng):
@@ -158,10 +191,12 @@ def generate(rng, tier, n):
     out = _exhaustive_scheds(tier)
     for i in range(n):
         r = rng.random()
-        if r < 0.3:
+        if r < 0.25:
             out.append(_random_sched(rng))
-        elif r < 0.5:
+        elif r < 0.4:
             out.append(_sequential_sched(rng))
+        elif r < 0.55:
+            out.append(_warm_shared_sched(rng))
         else:
             out.append(_multi(rng))
     return out
@@ -204,8 +239,10 @@ def shrink(case: Case):
     ops = [(o[0], int(o[1])) for o in d["ops"]]
     n = int(d["n"][0])
     sats = {int(x[0]): [int(e) for e in x[1:]] for x in d["sats"]}
+    alias = {int(a[0]): int(a[1]) for a in d.get("alias", [])}
+    tight = any(p == ["tight"] for p in s[1:])
     for i in range(len(ops)):
-        yield Case(_sched_line(n, sats, ops[:i] + ops[i + 1:]), case.tags, "shrink")
+        yield Case(_sched_line(n, sats, ops[:i] + ops[i + 1:], alias, tight), case.tags, "shrink")
 
 
 # ---------------------------------------------------------------------------------------------- real code
@@ -219,13 +256,25 @@ def _run_sched(line: str) -> str:
     from krrood.entity_query_language.entity import let, entity, in_
     from krrood.entity_query_language.quantify_entity import an
     s = G.parse_sexp(line)
-    d = {p[0]: p[1:] for p in s[1:]}
+    d = {(p[0] if isinstance(p, list) else p): (p[1:] if isinstance(p, list) else []) for p in s[1:]}
     n = int(d["n"][0])
     sats = {int(x[0]): [int(e) for e in x[1:]] for x in d["sats"]}
     ops = [(o[0], int(o[1])) for o in d["ops"]]
+    alias = {int(a[0]): int(a[1]) for a in d.get("alias", [])}
+    tight = "tight" in d
     items = [_Item(i, i + 1) for i in range(n)]          # a = i+1: truthy values only
     x = let(_Item, (it for it in items), name="x")        # ONE shared variable, one-shot generator domain
-    queries = {i: an(entity(x, in_(x.a, [e + 1 for e in es]))) for i, es in sats.items()}
+    queries = {}
+    for i, es in sats.items():
+        if i in alias:
+            continue
+        kw = {}
+        if tight:
+            from krrood.entity_query_language.result_quantification_constraint import AtMost
+            kw["quantification"] = AtMost(len(es))
+        queries[i] = an(entity(x, in_(x.a, [e + 1 for e in es])), **kw)
+    for j, i in alias.items():
+        queries[j] = queries[i]
     its, out = {}, []
     for op, i in ops:
         if op == "start":
